@@ -269,7 +269,9 @@ class SimulatorBase(
             for k, cr in step_result._classical_data.channel_records.items():
                 if k not in records:
                     records[k] = []
-                records[k].append([cr])
+                # One instance per occurrence of the key, each a single value (the index of the
+                # selected operator): shape (instances, 1), like measurement records.
+                records[k].append([[value] for value in cr])
 
         def pad_evenly(results: Sequence[Sequence[Sequence[int]]]):
             largest = max(len(result) for result in results)
